@@ -613,14 +613,14 @@ func TestC13(t *testing.T) {
 			}
 		}
 	}
-	run.Rapid(t, "races", ev.Pick(250, 20000), func(rt *rapid.T) {
+	run.Rapid(t, "races", ev.Pick(500, 20000), func(rt *rapid.T) {
 		c := genRace(rt)
 		if v := execRace(c); v != nil {
 			run.Candidate(v.sig, v.msg, c)
 			rt.Fatalf("%s: %s", v.sig, v.msg)
 		}
 	})
-	run.Rapid(t, "handover", ev.Pick(300, 20000), func(rt *rapid.T) {
+	run.Rapid(t, "handover", ev.Pick(600, 20000), func(rt *rapid.T) {
 		c := genHandover(rt)
 		run.Eval(1)
 		run.Class("handover")
